@@ -69,5 +69,6 @@ mod harness {
     #[kani::proof] #[kani::unwind(12)] fn h_o2l_nonascii_before() { check2("\u{e9}\u{e9}\nx\ny"); }
     #[kani::proof] #[kani::unwind(12)] fn h_o2l_nonascii_online() { check2("a\n\u{20ac}b\nc"); }
     #[kani::proof] #[kani::unwind(12)] fn h_o2l_crlf() { check2("a\r\nb\r\n"); }
+    #[kani::proof] #[kani::unwind(18)] fn h_o2l_mixed_long() { check2("\u{e9}\r\n\n\u{20ac}x\ty\n\u{1F600}"); }
     #[kani::proof] #[kani::unwind(12)] fn h_l2o() { check_back("ab\nc\n\nd"); check_back("\u{e9}\n\u{e9}x"); }
 }
